@@ -187,6 +187,13 @@ func (sc *Scenario) Materialise(dir string) error {
 		if err := os.MkdirAll(filepath.Dir(p), 0o755); err != nil {
 			return err
 		}
+		if strings.HasPrefix(content, "SYMLINK:") {
+			os.Remove(p)
+			if err := os.Symlink(strings.TrimPrefix(content, "SYMLINK:"), p); err != nil {
+				return err
+			}
+			continue
+		}
 		if err := os.WriteFile(p, []byte(content), 0o644); err != nil {
 			return err
 		}
